@@ -575,6 +575,8 @@ class World:
                 self.touch(path)
             self._after(act)
             raw = SimRaw(self, path, False, True)
+            if binary and buffering == 0:
+                return raw          # unbuffered: the caller sees short writes
             buf = io.BufferedWriter(raw, buffer_size=max(1, self.bin_buf
                                     if binary else self.text_buf))
             if binary:
@@ -595,6 +597,8 @@ class World:
             raise PermissionError(errno.EACCES, "Permission denied", path)
         self._after(act)
         raw = SimRaw(self, path, True, False)
+        if binary and buffering == 0:
+            return raw
         buf = io.BufferedReader(raw, buffer_size=max(1, self.bin_buf))
         if binary:
             return buf
@@ -778,6 +782,8 @@ class World:
                      fd=fdn,
                      append=bool(ent["flags"] & os.O_APPEND) or "a" in mode)
         raw.pos = ent["pos"]
+        if binary and buffering == 0:
+            return raw
         size = max(1, self.bin_buf if binary else self.text_buf)
         if reading and writing:
             buf = io.BufferedRandom(raw, buffer_size=size)
